@@ -517,6 +517,8 @@ class FillRequest(object):
         raise exceptions.LenaNotImplementedError
 
     def _run_fill_compute(self, flow):
+        # flow can be a container: slices must continue each other
+        flow = iter(flow)
         while True:
             # A slice is a non-materialized list, which means
             # that it will not take place of *bufsize* in memory.
@@ -567,6 +569,8 @@ class FillRequest(object):
         from itertools import islice, chain
         el_run = self._el.run
         bufsize = self.bufsize
+        # flow can be a container: slices must continue each other
+        flow = iter(flow)
 
         # we can yield results one by one
         if self._yield_on_remainder:
